@@ -2,6 +2,7 @@ import JunoModel.Common.Proto
 import JunoModel.C14.Model
 import JunoModel.C14.Codec
 import JunoModel.C14.Batch
+import JunoModel.C14.Chunk
 /-! Line-protocol driver for the C14 model (`lake build c14drv`).
 
 Requests (numbers are decimal):
@@ -10,6 +11,15 @@ Requests (numbers are decimal):
   `batch <hex>`                    `applyEncodedBatch` on the bytes: `ok <seq> <count> | <record> …`, `err:<class>`, `panic`
   `readlog <wm> <num>:<hex>,<hex>,… …`  NewTendermintWALStore over logs given by their complete records
   `wmenc <h>` / `wmdec <hex>`      the watermark file
+  `frames <lognum> <0|1> <hex> <hex> …`  the bytes of a log holding these records (1: closed, with the EOF trailer)
+  `emit <lognum> <pos> <hex>`      the bytes `LogWriter.SyncRecord` puts into the log for this record when the log is `pos` bytes long
+  `scan <lognum> <hex>` / `scanq …` Pebble's record reader over the bytes of a log + juno's tail repair:
+                                   `n=<records> starts=<offsets> off=<offset of the end> st=<eof|invalid> rep=<length after recoverLatestWALTail> recs <hex> …`
+                                   (`scanq`: `lens=<lengths>` instead of the records)
+  `blob <hex>`                     park a byte string; `scanq <lognum> ^a:b+<hex>+z<n>+…` then scans the concatenation of
+                                   slices of it, literal bytes and runs of zeros
+  `pw <lognum> <ev> …`             the offsets of `walWriter` over one log: `ok:<hex>` `torn:<k>:<t>:<hex>` `sf:<t>:<hex>` `close:<t>`
+                                   → `file=<hex> synced=<n> open=<0|1>`
   `pending` / `nextseq`            the buffered records (`e:<h>:<e>` / `p:<h>`) and `nextBatchSeqNum` of the running store
   `set h e` | `del h` | `flush <fault>` | `close <fault>` | `open` | `load` | `disk`
   `bases <cop> <fault>`            every durable state of the operation: `<tag>|<disk>|<infl>` joined by ` ; `
@@ -158,6 +168,30 @@ def parseLog (t : String) : Option (Nat × List (List UInt8)) :=
     pure (n, recs)
   | _ => none
 
+def chunkCfg (ln : Nat) : Chunk.Cfg := { B := 32768, logNum := ln % 4294967296, crc := Chunk.pebbleCrc }
+
+def fmtNats (l : List Nat) : String := fmtList (l.map toString) ","
+
+def fmtCErr : Chunk.CErr → String
+  | .eof => "eof"
+  | .invalid => "invalid"
+  | .fuel => "fuel"
+
+def fmtScan (c : Chunk.Cfg) (file : List UInt8) (full : Bool) : String :=
+  let r := Chunk.scan c file
+  "n=" ++ toString r.recs.length ++ " starts=" ++ fmtNats r.starts ++ " off=" ++ toString r.off ++ " st=" ++ fmtCErr r.st
+    ++ " rep=" ++ toString (Chunk.recoverTail c file).length
+    ++ (if full then " recs" ++ String.join (r.recs.map (fun p => " " ++ bytesToHex p))
+        else " lens=" ++ fmtNats (r.recs.map List.length))
+
+def parsePEv (t : String) : Option Chunk.PEv :=
+  match t.splitOn ":" with
+  | ["ok", hx] => (hexToBytes? hx).map .appendOk
+  | ["torn", k, tr, hx] => do pure (.appendTorn (← hexToBytes? hx) (← k.toNat?) (← tr.toNat?))
+  | ["sf", tr, hx] => do pure (.appendSyncFail (← hexToBytes? hx) (← tr.toNat?))
+  | ["close", tr] => tr.toNat?.map .close
+  | _ => none
+
 def run1 (s : Sys) (op : Op) : Sys × String :=
   let (s', o) := s.step op
   (s', fmtOut o)
@@ -202,6 +236,31 @@ def step (s : Sys) (line : String) : Sys × String :=
       match Batch.openLogs wm logs with
       | .error e => (s, fmtRecErr e)
       | .ok r => (s, "ok nextseq=" ++ toString r.nextSeq ++ String.join (r.load.map (fun p => " | " ++ fmtPay p)))
+    | _, _ => (s, "bad-op")
+  | "frames" :: ln :: tr :: recs =>
+    match ln.toNat?, allSome (recs.map hexToBytes?) with
+    | some ln, some ps =>
+      if tr == "0" then (s, bytesToHex (Chunk.frames (chunkCfg ln) ps))
+      else if tr == "1" then (s, bytesToHex (Chunk.frames (chunkCfg ln) ps ++ Chunk.trailer (chunkCfg ln)))
+      else (s, "bad-op")
+    | _, _ => (s, "bad-op")
+  | ["emit", ln, pos, hx] =>
+    match ln.toNat?, pos.toNat?, hexToBytes? hx with
+    | some ln, some pos, some bs => (s, bytesToHex (Chunk.emitRecord (chunkCfg ln) (pos % 32768) bs).1)
+    | _, _, _ => (s, "bad-op")
+  | ["scan", ln, hx] =>
+    match ln.toNat?, hexToBytes? hx with
+    | some ln, some bs => (s, fmtScan (chunkCfg ln) bs true)
+    | _, _ => (s, "bad-op")
+  | ["scanq", ln, hx] =>
+    match ln.toNat?, hexToBytes? hx with
+    | some ln, some bs => (s, fmtScan (chunkCfg ln) bs false)
+    | _, _ => (s, "bad-op")
+  | "pw" :: ln :: evs =>
+    match ln.toNat?, allSome (evs.map parsePEv) with
+    | some ln, some evs =>
+      let w := Chunk.PW.run (chunkCfg ln) {} evs
+      (s, "file=" ++ bytesToHex w.file ++ " synced=" ++ toString w.synced ++ " open=" ++ (if w.isOpen then "1" else "0"))
     | _, _ => (s, "bad-op")
   | ["wmenc", h] =>
     match h.toNat? with
@@ -265,4 +324,42 @@ def step (s : Sys) (line : String) : Sys × String :=
     | _, _, _ => (s, "bad-op")
   | _ => (s, "bad-op")
 
-def main : IO Unit := loop step Sys.init
+/-- the driver's state: the system, and a byte string the harness has parked (`blob <hex>`) so that the many
+damaged variants of one log file need not be sent whole each time -/
+structure DState where
+  sys : Sys := Sys.init
+  blob : List UInt8 := []
+
+/-- a byte string given as segments joined by `+`: `^a:b` (bytes a..b-1 of the parked string), `z<n>` (n zero
+bytes), or hex -/
+def parseSegs (blob : List UInt8) (t : String) : Option (List UInt8) :=
+  (allSome ((t.splitOn "+").map (fun seg =>
+    if seg.startsWith "^" then
+      match (String.ofList (seg.toList.drop 1)).splitOn ":" with
+      | [a, b] => do
+        let a ← a.toNat?
+        let b ← b.toNat?
+        pure ((blob.drop a).take (b - a))
+      | _ => none
+    else if seg.startsWith "z" then (String.ofList (seg.toList.drop 1)).toNat?.map (fun n => List.replicate n (0 : UInt8))
+    else hexToBytes? seg))).map List.flatten
+
+def stepD (d : DState) (line : String) : DState × String :=
+  match words line with
+  | ["blob", hx] =>
+    match hexToBytes? hx with
+    | some bs => ({ d with blob := bs }, "ok " ++ toString bs.length)
+    | none => (d, "bad-op")
+  | ["scanq", ln, seg] =>
+    if seg.startsWith "^" then
+      match ln.toNat?, parseSegs d.blob seg with
+      | some ln, some bs => (d, fmtScan (chunkCfg ln) bs false)
+      | _, _ => (d, "bad-op")
+    else
+      let r := step d.sys line
+      ({ d with sys := r.1 }, r.2)
+  | _ =>
+    let r := step d.sys line
+    ({ d with sys := r.1 }, r.2)
+
+def main : IO Unit := loop stepD {}
